@@ -164,6 +164,7 @@ func (c c20) Execute(h *core.History) *core.Outcome {
 		for m := range model {
 			check = append(check, m)
 		}
+		sort.Strings(check) // map order must not decide which mismatch is reported first
 		for _, u := range check {
 			_, want := model[u]
 			if got := t.Contains(u); got != want {
